@@ -231,7 +231,7 @@ pub fn load_known_findings() -> Vec<KnownFinding> {
 	let Ok(text) = std::fs::read_to_string(&path) else {
 		return vec![];
 	};
-	let Ok(v) = serde_json::from_str::<Value>(&text) else {
+	let Ok(v) = parse_deep::<Value>(&text) else {
 		eprintln!("HARNESS-ERROR: cannot parse {}", path.display());
 		std::process::exit(2);
 	};
@@ -544,7 +544,7 @@ fn run_check_inner<P: Prop>(p: &P, tier: Tier) -> i32 {
 		let mut files: Vec<PathBuf> = rd.filter_map(|e| e.ok()).map(|e| e.path()).filter(|p| p.extension().map_or(false, |e| e == "json")).collect();
 		files.sort();
 		for f in files {
-			match std::fs::read_to_string(&f).ok().and_then(|t| serde_json::from_str::<ReplayFile<P::Scn>>(&t).ok()) {
+			match std::fs::read_to_string(&f).ok().and_then(|t| parse_deep::<ReplayFile<P::Scn>>(&t).ok()) {
 				Some(rf) => {
 					corpus_run += 1;
 					let o = exec_caught(p, &rf.scenario);
@@ -874,7 +874,7 @@ pub fn run_replay<P: Prop>(p: &P, path: &str) -> i32 {
 			return 2;
 		}
 	};
-	let rf: ReplayFile<P::Scn> = match serde_json::from_str(&text) {
+	let rf: ReplayFile<P::Scn> = match parse_deep(&text) {
 		Ok(r) => r,
 		Err(e) => {
 			eprintln!("HARNESS-ERROR: cannot parse {path}: {e}");
@@ -1026,7 +1026,7 @@ fn run_isolated<P: Prop>(
 		let mut got_summary = false;
 		for line in stdout.lines() {
 			if let Some(js) = line.strip_prefix("WORKER-SUMMARY ") {
-				if let Ok(v) = serde_json::from_str::<Value>(js) {
+				if let Ok(v) = parse_deep::<Value>(js) {
 					got_summary = true;
 					let mut a = acc.lock().unwrap();
 					a.scenarios += v["scenarios"].as_u64().unwrap_or(0);
@@ -1078,7 +1078,7 @@ fn run_isolated<P: Prop>(
 			} else {
 				format!("process-killed:exit{:?}", out.status.code())
 			};
-			match std::fs::read_to_string(&inflight).ok().and_then(|t| serde_json::from_str::<Value>(&t).ok()) {
+			match std::fs::read_to_string(&inflight).ok().and_then(|t| parse_deep::<Value>(&t).ok()) {
 				Some(v) => {
 					if let Ok(scn) = serde_json::from_value::<P::Scn>(v["scenario"].clone()) {
 						found.lock().unwrap().push(Found {
@@ -1137,4 +1137,14 @@ fn report_hang<P: Prop>(p: &P, seed: u64, tier: Tier, run: u64) -> ! {
 			std::process::exit(2);
 		}
 	}
+}
+
+
+/// `serde_json::from_str` without its nesting limit of 128: scenarios with deliberately deep values nest deeper
+pub fn parse_deep<T: serde::de::DeserializeOwned>(text: &str) -> Result<T, serde_json::Error> {
+	let mut de = serde_json::Deserializer::from_str(text);
+	de.disable_recursion_limit();
+	let v = T::deserialize(&mut de)?;
+	de.end()?;
+	Ok(v)
 }
